@@ -11,8 +11,8 @@ Inductive policy :=
 | PSameHost
 | PAllowedHost (hs : list bytes)
 | PAllowedDomain (hs : list bytes)
-| PAlwaysCopy (auth cookie : bool)   (* AlwaysCopyHeaderRedirectPolicy(names): never refuses; the two
-                                       sensitive names the harness uses: Authorization, Cookie *)
+| PAlwaysCopy (names : list bytes)   (* AlwaysCopyHeaderRedirectPolicy(names...): never refuses; the names
+                                      in canonical form (http.Header.Values canonicalises its key) *)
 | PNil.                             (* a nil entry in the variadic list: skipped *)
 
 Definition mem_bytes (x : bytes) (l : list bytes) : bool := existsb (bytes_eqb x) l.
@@ -28,7 +28,7 @@ Definition permits (p : policy) (target : bytes) (via : list bytes) : bool :=
   | PSameHost => bytes_eqb (get_hostname target) (get_hostname first)
   | PAllowedHost hs => mem_bytes (get_hostname target) (map (fun h => to_lower (get_hostname h)) hs)
   | PAllowedDomain hs => mem_bytes (get_domain target) (map (fun h => to_lower (get_domain h)) hs)
-  | PAlwaysCopy _ _ => true
+  | PAlwaysCopy _ => true
   | PNil => true
   end.
 
@@ -38,11 +38,13 @@ Definition PDefault : policy := PMax default_redirect_limit.   (* DefaultRedirec
 Definition all_permit (ps : list policy) (target : bytes) (via : list bytes) : bool :=
   forallb (fun p => permits p target via) ps.
 
-(* does some policy re-add Authorization / Cookie from the first request? *)
-Definition copies_auth (ps : list policy) : bool :=
-  existsb (fun p => match p with PAlwaysCopy a _ => a | _ => false end) ps.
-Definition copies_cookie (ps : list policy) : bool :=
-  existsb (fun p => match p with PAlwaysCopy _ c => c | _ => false end) ps.
+(* the header names some AlwaysCopy policy re-adds from the first request when missing *)
+Definition always_names (ps : list policy) : list bytes :=
+  flat_map (fun p => match p with PAlwaysCopy ns => ns | _ => [] end) ps.
+
+(* net/http makeHeadersCopier: the canonical names withheld once stripSensitiveHeaders is set
+   (the list is regenerated from GOROOT/src/net/http/client.go: Gen/RedirectTables.v) *)
+Definition is_sensitive (n : bytes) : bool := mem_bytes n go_sensitive_headers.
 
 (* url.URL.Hostname(): strip a valid port, strip brackets; no case folding *)
 Definition url_hostname (host : bytes) : bytes :=
@@ -62,34 +64,41 @@ Definition is_domain_or_subdomain (sub parent : bytes) : bool :=
 Definition should_copy (initial dest : bytes) : bool :=
   is_domain_or_subdomain (url_hostname dest) (url_hostname initial).
 
-(* a request put on the wire: its URL.Host and how many Authorization / Cookie values it
-   carries (the initial request carries one of each) *)
-Record sent := { s_host : bytes; s_auth : nat; s_cookie : nat }.
+(* the caller's headers on the first request: canonical name and number of values *)
+Definition hdrs := list (bytes * nat).
+
+(* what a redirected request carries: every header of the first request, except that a sensitive
+   one is withheld once the chain has left the initial host's domain (sticky) - unless an
+   AlwaysCopy policy names it (it finds the header missing and re-adds the first request's values) *)
+Definition carry (ps : list policy) (strip : bool) (hs : hdrs) : hdrs :=
+  map (fun h => (fst h,
+                 if is_sensitive (fst h) && strip && negb (mem_bytes (fst h) (always_names ps))
+                 then 0 else snd h)) hs.
+
+(* a request put on the wire: its URL.Host and how many values of each of the caller's headers
+   it carries *)
+Record sent := { s_host : bytes; s_hdrs : hdrs }.
 
 Inductive chain_end := Completed | Refused.
 
-Definition b2n (b : bool) : nat := if b then 1 else 0.
-
 (* Drive a chain: [init] is the first request's URL.Host (always sent, with the caller's
-   sensitive headers), [targets] the Location authorities the servers answer with, in
+   headers [hs]), [targets] the Location authorities the servers answer with, in
    order.  Returns every request put on the wire and how the chain ended.  The policies run
    in order and the first refusal stops them, so an AlwaysCopy placed after a refusing
    policy never runs - but then nothing is sent either. *)
-Fixpoint follow (ps : list policy) (init : bytes) (via : list bytes) (strip : bool)
+Fixpoint follow (ps : list policy) (init : bytes) (hs : hdrs) (via : list bytes) (strip : bool)
          (targets : list bytes) : list sent * chain_end :=
   match targets with
   | [] => ([], Completed)
   | t :: rest =>
       let strip' := strip || (negb (bytes_eqb init t) && negb (should_copy init t)) in
       if all_permit ps t via then
-        let '(l, e) := follow ps init (via ++ [t]) strip' rest in
-        ({| s_host := t;
-            s_auth := b2n (negb strip' || copies_auth ps);
-            s_cookie := b2n (negb strip' || copies_cookie ps) |} :: l, e)
+        let '(l, e) := follow ps init hs (via ++ [t]) strip' rest in
+        ({| s_host := t; s_hdrs := carry ps strip' hs |} :: l, e)
       else ([], Refused)
   end.
 
-Definition run_chain (ps : list policy) (init : bytes) (targets : list bytes)
+Definition run_chain (ps : list policy) (init : bytes) (hs : hdrs) (targets : list bytes)
   : list sent * chain_end :=
-  let '(l, e) := follow ps init [init] false targets in
-  ({| s_host := init; s_auth := 1; s_cookie := 1 |} :: l, e).
+  let '(l, e) := follow ps init hs [init] false targets in
+  ({| s_host := init; s_hdrs := hs |} :: l, e).
